@@ -138,6 +138,34 @@ Proof. exact (fun r w k => conj (block_end_value_r r k) (block_end_value_w w k))
 Theorem C20_readers_agree : forall f p, blocks_nonneg p -> r_run p (r_init f 0) = d_run p (d_init f 0).
 Proof. exact readers_agree. Qed.
 
+(* ---- round trip INSIDE a bounded block with any k bits left (k zero or negative included for the
+   writer and BitstreamReader; k >= 0 for the validator's reader): a signed exp-Golomb code is accepted
+   iff everything past the end of the block is 1 (`all_ones`), only its first max(k,0) bits reach the
+   file, and both readers in a block with k bits left read back the same value, consume only those bits
+   and drop their counters by the full code length; otherwise the writer raises ValueError ---- *)
+Theorem C20_bounded_sint_roundtrip : forall v k,
+  all_ones (skipn (Z.to_nat k) (sint_bits v)) ->
+  (forall w, w_wf w -> w_rem w = Some k ->
+     exists w', w_write_sint v w = (w', None) /\ w_view w' = w_view w ++ firstn (Z.to_nat k) (sint_bits v) /\
+                w_rem w' = Some (k - Z.of_nat (length (sint_bits v)))) /\
+  (forall r rest, r_wf r -> r_rem r = Some k -> r_view r = firstn (Z.to_nat k) (sint_bits v) ++ rest ->
+     exists r', r_read_sint r = (r', Ok v) /\ r_view r' = rest /\ r_rem r' = Some (k - Z.of_nat (length (sint_bits v))) /\
+                r_bitpos r' = r_bitpos r + Z.of_nat (length (firstn (Z.to_nat k) (sint_bits v)))) /\
+  (0 <= k -> forall d rest, d_wf d -> d_left d = k -> d_view d = firstn (Z.to_nat k) (sint_bits v) ++ rest ->
+     exists d', d_read_sintb d = (d', Ok v) /\ d_view d' = rest /\ d_left d' = Z.max 0 (k - Z.of_nat (length (sint_bits v))) /\
+                d_bitpos d' = d_bitpos d + Z.of_nat (length (firstn (Z.to_nat k) (sint_bits v)))).
+Proof. exact blk_sint_roundtrip. Qed.
+Theorem C20_bounded_sint_rejected : forall v k s, w_rem s = Some k ->
+  ~ all_ones (skipn (Z.to_nat k) (sint_bits v)) -> exists s', w_write_sint v s = (s', Some EValue).
+Proof. exact blk_sint_reject. Qed.
+(* the same for an arbitrary bit sequence (every primitive is such a sequence of write_bit / read_bit calls) *)
+Theorem C20_bounded_bits_writer : forall l s k, w_wf s -> w_rem s = Some k ->
+  all_ones (skipn (Z.to_nat k) l) ->
+  exists s', w_write_bits l s = (s', None) /\ w_view s' = w_view s ++ firstn (Z.to_nat k) l /\ w_wf s' /\
+             w_rem s' = Some (k - Z.of_nat (length l)) /\
+             w_bitpos s' = w_bitpos s + Z.of_nat (length (firstn (Z.to_nat k) l)).
+Proof. exact w_write_bits_blk. Qed.
+
 (* ---- negative block lengths: the readers differ (read_bitb tests bits_left == 0); the
    validator cannot produce one: its three assignments to bits_left are a read_nbits value,
    a difference guarded by InvalidSliceYLength, and 8 * scaler * read_uint_lit (harness AST scan) ---- *)
